@@ -319,15 +319,22 @@ def encArrHdr (ver : Int) (flex : Bool) (k : AKind) (isNull : Bool) (len : Nat) 
     if k.nullableAt ver && isNull then (if flex then [0] else encInt32 (-1))
     else (if flex then encUvarint (len + 1) else encInt32 len)
 
-/-- `Reader.ArrayLen` / `CompactArrayLen` (`int32(uvarint) - 1` with Go's wrapping) / `VarintArrayLen`:
-the length is refused when it exceeds the remaining bytes. -/
+/-- the length is refused when it exceeds the remaining bytes ("The min size of a Kafka type is a byte"). -/
+def chkLen (l : Int) (r : Bytes) : Res Int := if (r.length : Int) < l then .err 0 else .ok l r
+
+/-- `int32(b.Uvarint()) - 1` with Go's wrapping conversions. -/
+def wrapLen (u : Nat) : Int :=
+  if u < 2147483648 then (u : Int) - 1            -- int32(u) = u
+  else if u = 2147483648 then 2147483647          -- int32(u) = -2^31, and -2^31 - 1 wraps
+  else (u : Int) - 4294967297                     -- int32(u) = u - 2^32
+
+/-- `Reader.ArrayLen` / `CompactArrayLen` / `VarintArrayLen`. -/
 def decArrLen (flex : Bool) (k : AKind) (src : Bytes) : Res Int :=
-  let chk : Int → Bytes → Res Int := fun l r => if (r.length : Int) < l then .err 0 else .ok l r
   match k with
-  | .varint => (readVarint src).andThen chk
-  | _ =>
-    if flex then (readUvarint src).andThen fun u r => chk (fromU m32 ((u + (m32 - 1)) % m32)) r
-    else (readInt 4 m32 src).andThen chk
+  | .varint => (readVarint src).andThen chkLen
+  | .normal | .nullable _ =>
+    if flex then (readUvarint src).andThen fun u r => chkLen (wrapLen u) r
+    else (readInt 4 m32 src).andThen chkLen
 
 /-- what the decoder leaves in the field when no element is decoded (`l ≤ 0`). -/
 def emptyArr (ver : Int) (k : AKind) (l : Int) : Val :=
@@ -420,6 +427,14 @@ def knownTags : Fields → List Nat
   | .cons _ _ _ (some k) _ _ rest => k :: knownTags rest
   | .cons _ _ _ none _ _ rest => knownTags rest
 
+/-- the entries whose key is not a defined tag end in `UnknownTags` (`Tags.Set` per entry, in wire order). -/
+def unknownOf (known : List Nat) (raw : List (Nat × Bytes)) : List (Nat × Bytes) :=
+  (raw.filter fun e => !known.contains e.1).foldl (fun acc (e : Nat × Bytes) => tagSet acc e.1 e.2) []
+
+/-- a nullable struct starts with a presence byte: `if present := b.Int8(); present != -1 && b.Ok()`. -/
+def structPre (nullable : Bool) (src : Bytes) : Res Bool :=
+  if nullable then (readInt 1 m8 src).map fun p => decide (p ≠ -1) else .ok true src
+
 /-! ## The interpreter -/
 
 mutual
@@ -498,20 +513,15 @@ def dec (c : Cfg) (flex : Bool) : Ty → Bytes → Res Val
         (goMake l c.cap).andThen fun n _ => (decList c flex t n r).map .list
       else .ok (emptyArr c.ver k l) r
   | .struct nullable ff fs, src =>
-    let fl := flexAt ff c.ver
-    let body : Bytes → Res Val := fun src =>
-      (decFields c fl fs src).andThen fun vals r =>
-        if fl then
+    (structPre nullable src).andThen fun isPresent r0 =>
+      if !isPresent then .ok .null r0 else
+      (decFields c (flexAt ff c.ver) fs r0).andThen fun vals r =>
+        if flexAt ff c.ver then
           (readUvarint r).andThen fun num r1 =>
           (readTagsOf (knownTags fs) num r1).andThen fun raw r2 =>
-          match applyTags c fl fs raw vals with
-          | .ok vals' _ => .ok (.stru vals' ((raw.filter fun e => !(knownTags fs).contains e.1).foldl (fun acc (e : Nat × Bytes) => tagSet acc e.1 e.2) [])) r2
-          | .err s => .err s
-          | .panic m => .panic m
+          (applyTags c (flexAt ff c.ver) fs raw vals).andThen fun vals' _ =>
+            .ok (.stru vals' (unknownOf (knownTags fs) raw)) r2
         else .ok (.stru vals []) r
-    if nullable then
-      (readInt 1 m8 src).andThen fun p r => if p = -1 then .ok .null r else body r
-    else body src
 termination_by t => (sizeOf t, 0)
 def decList (c : Cfg) (flex : Bool) : Ty → Nat → Bytes → Res Vals
   | _, 0, src => .ok .nil src
@@ -541,7 +551,7 @@ def applyTags (c : Cfg) (flex : Bool) : Fields → List (Nat × Bytes) → Vals 
         | .panic m => .panic m
     | .err s => .err s
     | .panic m => .panic m
-  | _, _, _ => .panic "applyTags: arity"
+  | _, _, vs => .ok vs []
 termination_by fs => (sizeOf fs, 0)
 def decEach (c : Cfg) (flex : Bool) : Ty → List Bytes → Val → Res Val
   | _, [], v => .ok v []
@@ -584,6 +594,45 @@ def canonFields (ver : Int) (flex : Bool) : Fields → Vals → Vals
   | _, vs => vs
 end
 
+/-! ## Schema well-formedness (decidable; proved of the regenerated schema in Props/C15 for every definition and version) -/
+
+def primW : Prim → Nat
+  | .bool | .int8 | .varint | .varlong => 1
+  | .int16 | .uint16 => 2
+  | .int32 | .uint32 => 4
+  | .int64 | .float64 => 8
+  | .uuid => 16
+
+mutual
+/-- a lower bound of the number of bytes any value of the type occupies. -/
+def minW (ver : Int) : Ty → Nat
+  | .prim p => primW p
+  | .str _ => 1
+  | .arr _ _ => 1
+  | .struct nullable ff fs => if nullable then 1 else minWF ver fs + (if flexAt ff ver then 1 else 0)
+def minWF (ver : Int) : Fields → Nat
+  | .nil => 0
+  | .cons _ minV maxV tag _ t rest => (if tag.isSome || !present minV maxV ver then 0 else minW ver t) + minWF ver rest
+end
+
+def tagsDistinct : Fields → Bool
+  | .nil => true
+  | .cons _ _ _ (some k) _ _ rest => !(knownTags rest).contains k && tagsDistinct rest
+  | .cons _ _ _ none _ _ rest => tagsDistinct rest
+
+mutual
+/-- every array element occupies at least one byte at `ver` (`Reader.ArrayLen` refuses a length above the remaining byte count:
+"The min size of a Kafka type is a byte"), and the defined tags of a struct are pairwise distinct. -/
+def schemaOK (ver : Int) : Ty → Bool
+  | .prim _ => true
+  | .str _ => true
+  | .arr _ t => decide (1 ≤ minW ver t) && schemaOK ver t
+  | .struct _ _ fs => tagsDistinct fs && schemaOKF ver fs
+def schemaOKF (ver : Int) : Fields → Bool
+  | .nil => true
+  | .cons _ _ _ _ _ t rest => schemaOK ver t && schemaOKF ver rest
+end
+
 /-! ## Top level entry points (what the harness calls) -/
 
 def verOfVal (top : Top) (ver : Int) (v : Val) : Int :=
@@ -623,8 +672,8 @@ def decTop (top : Top) (ver : Int) (src : Bytes) : Res Val :=
       | .stru vals unk =>
         match nthVal vals i with
         | some (.int len) => (span (len - k) r).map fun rawb => .stru (Vals.ofList (vals.toList ++ [.blob (some rawb)])) unk
-        | _ => .panic "raw: length field"
-      | _ => .panic "raw: struct"
+        | _ => .err 0
+      | _ => .err 0
 
 def canonTop (top : Top) (ver : Int) (v : Val) : Val :=
   let ver := verOfVal top ver v
